@@ -6,6 +6,8 @@ for d in sorted(glob.glob('/verif/seeded/*/meta.json')):
     m = json.load(open(d))
     r = m['result']
     first = 'missed at first' if r.startswith('missed') else ('not observable' if r.startswith('not observable') else 'caught as written')
+    if m.get('obsolete_since'):
+        r += ' [obsolete since /repo %s: %s]' % (m['obsolete_since'], m.get('obsolete_note', ''))
     rows.append("| `%s` | %s | %s | %s — %s |" % (m['id'], m['property'], m['needs'].replace('|', '/'), first, r.replace('|', '/')))
 p = '/verif/DESIGN.md'
 s = open(p).read()
